@@ -232,6 +232,22 @@ Theorem C04_all_fits_return_self_and_set_flag_or_known : forall row o ret flag e
 Proof. exact fit_contract_or_known. Qed.
 Print Assumptions C04_all_fits_return_self_and_set_flag_or_known.
 
+(* every set_params written in the package (the composites') is either abstract or reaches the
+   validation of the names - scikit-learn's set_params through _set_params - on EVERY completing
+   path: no early return before unknown names are rejected; all other classes inherit scikit-learn's *)
+Theorem C04_all_set_params_validate_names : forall row,
+  In row class_table ->
+  r_setparams row = PX \/ (exists o, r_setparams row = PA o) \/ (exists o a, r_setparams row = PV o a).
+Proof. exact set_params_validates_or_is_sklearns. Qed.
+Print Assumptions C04_all_set_params_validate_names.
+
+(* the composite descriptions sk_meta, under which the model is compared with the real objects, use
+   per class the very key with which that class's set_params delegates to _set_params in the source *)
+Theorem C04_model_meta_keys_are_the_delegation_keys :
+  forall row, In row class_table -> meta_tie_ok sk_meta ["FeatureUnion"] row = true.
+Proof. exact model_meta_keys_are_the_delegation_keys. Qed.
+Print Assumptions C04_model_meta_keys_are_the_delegation_keys.
+
 (* the state machine the fitted-state theorems above are about is the one written in
    sktime/base/_base.py on this run: flag False after construction, is_fitted returns the flag,
    apply-type methods raise exactly when check_is_fitted raises, and what it raises is
